@@ -39,6 +39,7 @@ fn run_case(case: &Sexp) -> String {
     "flatten" => flatten::run_flatten(body),
     "timed" => timed::run_timed(body),
     "timedchain" => timed::run_timedchain(body),
+    "timed2" => timed::run_timed2(body),
     "async" => asyncsrc::run_async(body),
     "atform" => timed::run_atform(body),
     "subalg" => subalg::run_subalg(body),
